@@ -4809,18 +4809,13 @@ where
           let _ = write!(self.state.data_location, "/{}", value);
 
           None
-        } else if let Some(Occur::Optional { .. }) | Some(Occur::ZeroOrMore { .. }) =
-          &self.state.occurrence.take()
+        } else if self
+          .state
+          .occurrence
+          .take()
+          .as_ref()
+          .is_some_and(occurrence_allows_absence)
         {
-          self.state.advance_to_next_entry = true;
-          None
-        } else if let Some(Occur::Exact {
-          lower: None,
-          upper: None,
-          ..
-        }) = &self.state.occurrence.take()
-        {
-          // Handle Exact { lower: None, upper: None } as zero-or-more (for backward compatibility)
           self.state.advance_to_next_entry = true;
           None
         } else if let Some(ControlOperator::NE) | Some(ControlOperator::DEFAULT) = &self.state.ctrl
@@ -4839,8 +4834,12 @@ where
           self.state.data_location.push_str(&format!("/{}", value));
 
           None
-        } else if let Some(Occur::Optional {}) | Some(Occur::ZeroOrMore {}) =
-          &self.state.occurrence.take()
+        } else if self
+          .state
+          .occurrence
+          .take()
+          .as_ref()
+          .is_some_and(occurrence_allows_absence)
         {
           self.state.advance_to_next_entry = true;
           None
